@@ -184,6 +184,10 @@ EXPORT errno_t _mbsrtowcs_s_chk(size_t *restrict retvalp,
     orig_dest = dest;
     memcpy(&orig_ps, ps, sizeof(orig_ps));
 
+    errno = 0;
+    /* libc stores up to len elements: never more than dest holds */
+    if (dest && len > dmax)
+        len = dmax;
     *retvalp = mbsrtowcs(dest, srcp, len, ps);
 
     if (likely(*retvalp < dmax)) {
@@ -197,13 +201,13 @@ EXPORT errno_t _mbsrtowcs_s_chk(size_t *restrict retvalp,
         rc = EOK;
     } else {
         if (dest) {
-            size_t tmp = 0;
-            errno = 0;
-            /* with NULL either 0 or -1 is returned */
-            if (*retvalp > RSIZE_MAX_WSTR) { /* else ESNOSPC */
-                tmp = mbsrtowcs(NULL, srcp, len - 1, &orig_ps);
+            int tmp = (*retvalp == (size_t)-1); /* else ESNOSPC */
+            rc = !tmp ? ESNOSPC : (errno ? errno : EILSEQ);
+            if (tmp) {
+                /* after an encoding error the state is unspecified: hand
+                   back the one the caller passed in, so it can be reused */
+                memcpy(ps, &orig_ps, sizeof(orig_ps));
             }
-            rc = (tmp == 0) ? ESNOSPC : errno;
             /* the entire src must have been copied, if not reset dest
              * to null the string. (only with SAFECLIB_STR_NULL_SLACK) */
             handle_werror(orig_dest, dmax,
